@@ -78,6 +78,21 @@ fn replay_time(s: &mut Summary, c: &Value) {
             }
             Err(m) => s.violation("encode:panic", m, c.clone()),
         }
+        // the instant read from RFC 3339 text is the same instant whatever zone the text is written in
+        {
+            use chrono::{FixedOffset, SecondsFormat};
+            use std::str::FromStr;
+            let inst = mk_time(t);
+            for secs in [0i32, 7200, -5400, 50400, -43200] {
+                let text = (*inst).with_timezone(&FixedOffset::east_opt(secs).unwrap()).to_rfc3339_opts(SecondsFormat::Secs, secs == 0);
+                match guarded(|| Time::from_str(&text)) {
+                    Ok(Ok(got)) if got == inst => {}
+                    Ok(Ok(got)) => s.violation("text:offset", format!("Time::from_str('{text}') = {got:?}, the instant is {inst:?}"), c.clone()),
+                    Ok(Err(e)) => s.violation("text:offset", format!("Time::from_str('{text}') fails: {e}"), c.clone()),
+                    Err(m) => s.violation("text:panic", m, c.clone()),
+                }
+            }
+        }
         // canonical form must decode back to the same instant
         match decode_time(tag, &text) {
             Ok(Ok(got)) if parts(&got) == t => {}
